@@ -308,6 +308,19 @@ def run(ctx):
                     okf = True
         ctx.check(okf, "R08.4", "%s|worker-applies-id-weight" % W.name, "the worker applies UpdateWeight(id, w) as update(id, w), payloads in order", W.where())
 
+    # ---- R08.9 the in-place update hands the request through unchanged to the entry update -------------------------
+    upd_entry = {f.name for f in upd}
+    for g in [F.fn(n) for n in sorted(upd_store)]:
+        calls = [(b, t) for b, t in g.calls() if t.get("rpath") in upd_entry]
+        ctx.check(len(calls) == 1, "R08.9", "%s|one-entry-update" % g.name, "the in-place update applies exactly one entry update", g.where())
+        for b, t in calls:
+            args = [g.op_origin(a) for a in t["args"]]
+            params_ok = sorted(a[1] for a in args[1:] if a[0] == "param") == [3, 4, 5]
+            clock_ok = any(a[0] == "field" and a[1] == ("param", 1) for a in args[1:])
+            ctx.check(params_ok and clock_ok, "R08.9", "%s|request-forwarded-unchanged" % g.name,
+                      "the value, the ttl and the remove flag reach the entry update exactly as they were passed in (not filtered, defaulted or replaced), with the store's clock",
+                      g.where(b), str([fmt(a) for a in args[1:]]))
+
     # ---- R08.7 in-place update agrees with readability -------------------------------------------------------
     for g, bb, t in S.lookup_sites:
         if g.name in upd_store:
